@@ -876,7 +876,7 @@ fn sop_coq_str(o: &Value) -> String {
 }
 
 /// SortableStrVec: [0,s] push_str  [1,i] get  [2] len  [3] iter  [4] clear  [5] sort_lexicographic  [6] sort_by_length
-/// [7] sort_by(reverse)  [8,i] get_sorted  [9] iter_sorted  [10] clone  [11] radix_sort (oracle only)  [12] sort  [13,s] push(String)
+/// [7] sort_by(reverse)  [8,i] get_sorted  [9] iter_sorted  [10] clone  [11] radix_sort  [12] sort  [13,s] push(String)
 fn strvec_history(cx: &mut Ctx, ops: &[Value], coq: Coq) {
     let cell = "SortableStrVec";
     cx.sum.eval(cell, &format!("strvec {:?}", ops), ops.len() >= 3);
@@ -887,7 +887,7 @@ fn strvec_history(cx: &mut Ctx, ops: &[Value], coq: Coq) {
         let mut want: Vec<String> = vec![];
         let mut view: Vec<String> = vec![];   // what the sorted view must show (Exact), or a sorted-by-length reference (ByLen)
         let mut mode = Mode::Unsorted;
-        let mut coq_ops: Vec<String> = vec![]; let mut expect: Vec<String> = vec![]; let mut coq_ok = true;
+        let mut coq_ops: Vec<String> = vec![]; let mut expect: Vec<String> = vec![]; let coq_ok = true;
         for o in ops {
             let code = o[0].as_u64().unwrap_or(0);
             let i = o[1].as_u64().unwrap_or(0) as usize;
@@ -911,7 +911,7 @@ fn strvec_history(cx: &mut Ctx, ops: &[Value], coq: Coq) {
                 5 | 11 | 12 => { let r = match code { 5 => v.sort_lexicographic(), 11 => v.radix_sort(), _ => v.sort() };
                        if r.is_err() { return Err("sort refused".into()); }
                        view = want.clone(); view.sort(); mode = Mode::Exact; e = vec![0];
-                       if code == 11 { coq_ok = false; } else { cop = Some("TS SSortLex".into()); } }
+                       cop = Some(if code == 11 { "TS SRadix" } else { "TS SSortLex" }.into()); }
                 6 => { if v.sort_by_length().is_err() { return Err("sort_by_length refused".into()); } view = want.clone(); view.sort(); mode = Mode::ByLen; e = vec![0]; cop = Some("TS SSortByLen".into()); }
                 7 => { if v.sort_by(|a, b| b.cmp(a)).is_err() { return Err("sort_by refused".into()); } view = want.clone(); view.sort(); view.reverse(); mode = Mode::Exact; e = vec![0]; cop = Some("TS (SSortBy rev_lex)".into()); }
                 8 => { let g = v.get_sorted(i).map(|x| x.to_string());
@@ -1029,6 +1029,8 @@ fn gen_str_ops(r: &mut Rng, fixed_n: Option<usize>) -> Vec<Value> {
     let cnt = r.range(4, 40);
     let mut ops: Vec<Value> = vec![];
     let mut len: u64 = 0;
+    // every fifth SortableStrVec history starts with 32..48 pushes, so that radix_sort leaves its small-input branch
+    if fixed_n.is_none() && r.chance(1, 5) { for _ in 0..r.range(32, 48) { let s = r.pick(&pool).clone(); len += 1; ops.push(json!([0, s])); } }
     for _ in 0..cnt {
         let c = r.below(100);
         let s = r.pick(&pool).clone();
@@ -1040,7 +1042,7 @@ fn gen_str_ops(r: &mut Rng, fixed_n: Option<usize>) -> Vec<Value> {
         } else {
             if c < 38 { len += 1; json!([if c % 2 == 0 { 0 } else { 13 }, s]) } else if c < 50 { json!([1, idx(r, len)]) } else if c < 53 { json!([2]) } else if c < 58 { json!([3]) }
             else if c < 61 { len = 0; json!([4]) } else if c < 68 { json!([5]) } else if c < 73 { json!([6]) } else if c < 78 { json!([7]) } else if c < 86 { json!([8, idx(r, len)]) }
-            else if c < 93 { json!([9]) } else if c < 96 { json!([10]) } else if c < 98 { json!([11]) } else { json!([12]) }
+            else if c < 92 { json!([9]) } else if c < 94 { json!([10]) } else if c < 98 { json!([11]) } else { json!([12]) }
         });
     }
     ops
